@@ -344,6 +344,66 @@ def chain_stream_probe(rep):
     return fails
 
 
+def consumer_of_tee_child_probe(rep):
+    """One child of a tee is handed to a consumer that owns its argument -- a tool, a scoped_iter block, a chain --, the
+    consumer takes an item and is closed / left; from then on that child is done, so what its sibling streams afterwards is
+    not kept for it"""
+    import weakref
+    fails = 0
+
+    class Item:
+        pass
+    consumers = {
+        "enumerate": lambda c: a.enumerate(c), "filter": lambda c: a.filter(lambda x: True, c), "islice": lambda c: a.islice(c, 5),
+        "takewhile": lambda c: a.takewhile(lambda x: True, c), "accumulate": lambda c: a.accumulate(c, lambda x, y: y), "pairwise": lambda c: a.pairwise(c),
+        "batched": lambda c: a.batched(c, 1), "starmap": lambda c: a.starmap(lambda x: x, a.map(lambda x: (x,), c)), "any_iter": lambda c: a.any_iter(c),
+        "map": lambda c: a.map(lambda x: x, c), "zip": lambda c: a.zip(c), "chain": lambda c: a.chain(c), "dropwhile": lambda c: a.dropwhile(lambda x: False, c),
+        "compress": lambda c: a.compress(c, [1] * 100), "zip_longest": lambda c: a.zip_longest(c), "merge": lambda c: a.merge(c, key=lambda x: 0),
+        "groupby": lambda c: a.groupby(c, key=lambda x: 0), "filterfalse": lambda c: a.filterfalse(lambda x: False, c), "cycle": lambda c: a.cycle(c),
+    }
+    for name in list(consumers) + ["scoped_iter", "scoped_iter(chain)"]:
+        made = []
+
+        class Lazy:
+            def __aiter__(self):
+                return self
+
+            async def __anext__(self):
+                it = Item()
+                made.append(weakref.ref(it))
+                return it
+
+        async def go():
+            t = a.tee(Lazy(), 2)
+            if name == "scoped_iter":
+                async with a.scoped_iter(t[0]) as h:
+                    await h.__anext__()
+            elif name == "scoped_iter(chain)":
+                async with a.scoped_iter(a.chain(t[0])) as h:
+                    await h.__anext__()
+            else:
+                tool = consumers[name](t[0])
+                await tool.__anext__()
+                await tool.aclose()
+            worst = 0
+            for _ in range(60):
+                await t[1].__anext__()
+                gc.collect()
+                worst = builtins.max(worst, builtins.sum(1 for w in made if w() is not None))
+            await t.aclose()
+            return worst
+        try:
+            worst = drive(go())
+            why = None if worst <= 3 else "%d items alive while the sibling streamed 60 more" % worst
+        except BaseException as e:  # noqa
+            why = "failed with %r" % (e,)
+        rep.count(("tee-child-consumer", name), True)
+        if why:
+            fails += 1
+            rep.violation("retention:tee-child-consumer", {"consumer": name, "why": "a tee child given to %s, which took one item and was closed/left: %s" % (name, why)})
+    return fails
+
+
 def run(tier, seed):
     rep = Report("C20", tier, seed)
     proofs_ok = proof_stage(rep, "C20")
@@ -394,6 +454,7 @@ def run(tier, seed):
                                            "%d items alive although the fastest child leads the slowest live one by %d (positions %r, live %r)" % worst})
             break
     fails += concurrent_tee_probe(rep)
+    fails += consumer_of_tee_child_probe(rep)
     fails += chain_stream_probe(rep)
     if not proofs_ok:
         rep.violation("proof-broken", {"broken": rep.notes.get("broken_file", "?"), "log": rep.notes.get("build_log_tail", "")[-1500:]}, no_input=True)
